@@ -19,7 +19,7 @@ static char replay_nm[64];
 #define IN(var, ...) (snprintf(replay_nm, sizeof replay_nm, __VA_ARGS__), var = (int)replay_get(replay_nm))
 #define P(x) ((void*)(x))
 void k_set_file(void*, long); long k_get_file(void*, long); int k_read_crs(int, int, void*, void*, int, void*, void*, int, void*, void*, void*); int k_write_crs(int, void*, void*, void*);
-int k_read_dense(int, int, void*, void*, void*, int, void*); int k_write_dense(int, int, void*);
+int k_read_dense(int, int, void*, void*, void*, int, void*); int k_write_dense(int, int, void*); int k_read_crs8(int, int, void*, void*, int, void*, void*, int, void*, void*, void*); int k_write_crs8(int, void*, void*, void*);
 #endif
 #ifndef FCAP
 #define FCAP 40          /* bytes of file */
@@ -71,6 +71,22 @@ void h_crs_roundtrip(void) {
     int rn = -7, rp[N+2], rc[NNZ+1], rv[NNZ+1], pl = -7, cl = -7, vl = -7;
     int r = k_read_crs(rb, re, P(&rn), P(rp), N+2, P(rc), P(rv), NNZ+1, P(&pl), P(&cl), P(&vl));
     int b = rb < 0 ? 0 : rb, e = re < 0 ? n : re;
+    assert(r == 0); assert(rn == n); assert(pl == e - b + 1); assert(cl == ptr[e] - ptr[b] && vl == cl);
+    for (int i = 0; i <= N; ++i) if (i < pl) assert(rp[i] == ptr[b+i] - ptr[b]);
+    for (int j = 0; j < NNZ; ++j) if (j < cl) { assert(rc[j] == col[ptr[b]+j]); assert(rv[j] == val[ptr[b]+j]); }
+#ifdef WITNESS
+    assert(0);
+#endif
+}
+void h_crs_roundtrip8(void) {      // 8-byte payload
+    ir_init_globals(); int n; IN(n, "n"); __CPROVER_assume(n >= 0 && n <= N); int ptr[N+1], col[NNZ]; long long val[NNZ]; ptr[0] = 0;
+    for (int i = 0; i < N; ++i) { IN(ptr[i+1], "ptr[%d]", i+1); __CPROVER_assume(ptr[i+1] >= ptr[i] && ptr[i+1] <= NNZ); if (i >= n) __CPROVER_assume(ptr[i+1] == ptr[i]); }
+    for (int j = 0; j < NNZ; ++j) { int lo, hi; IN(col[j], "col[%d]", j); IN(lo, "val_lo[%d]", j); IN(hi, "val_hi[%d]", j); val[j] = ((long long)hi << 32) | (unsigned)lo; }
+    for (int i = 0; i < N; ++i) for (int j = 0; j + 1 < NNZ; ++j) if (j >= ptr[i] && j + 1 < ptr[i+1]) __CPROVER_assume(col[j] <= col[j+1]);
+    int w = k_write_crs8(n, P(ptr), P(col), P(val)); assert(w == 0);
+    int rb, re; IN(rb, "row_beg"); IN(re, "row_end"); __CPROVER_assume((rb == -1 && re == -1) || (rb >= 0 && rb <= re && re <= n));
+    int rn = -7, rp[N+2], rc[NNZ+1], pl = -7, cl = -7, vl = -7; long long rv[NNZ+1];
+    int r = k_read_crs8(rb, re, P(&rn), P(rp), N+2, P(rc), P(rv), NNZ+1, P(&pl), P(&cl), P(&vl)); int b = rb < 0 ? 0 : rb, e = re < 0 ? n : re;
     assert(r == 0); assert(rn == n); assert(pl == e - b + 1); assert(cl == ptr[e] - ptr[b] && vl == cl);
     for (int i = 0; i <= N; ++i) if (i < pl) assert(rp[i] == ptr[b+i] - ptr[b]);
     for (int j = 0; j < NNZ; ++j) if (j < cl) { assert(rc[j] == col[ptr[b]+j]); assert(rv[j] == val[ptr[b]+j]); }
